@@ -105,8 +105,8 @@ func genBlockID(r *rng.R) types.BlockID {
 	return types.BlockID{Hash: h, PartsHeader: genPSH(r)}
 }
 
-func genPeer(r *rng.R) string {
-	if r.Chance(0.35) {
+func genPeer(r *rng.R, force bool) string {
+	if !force && r.Chance(0.35) {
 		return "" // internal message (the node's own proposal / part / vote)
 	}
 	return fmt.Sprintf("%x", r.Bytes(20))
@@ -134,7 +134,7 @@ func genPartBytes(r *rng.R, n int) []byte {
 }
 
 // genRecord builds one WAL payload of the given kind for height h.
-func genRecord(r *rng.R, kind string, h uint64, partSize int) op {
+func genRecord(r *rng.R, kind string, h uint64, partSize int, fromPeer bool) op {
 	o := op{K: "w", Kind: kind}
 	round := r.Intn(4)
 	switch kind {
@@ -143,13 +143,13 @@ func genRecord(r *rng.R, kind string, h uint64, partSize int) op {
 			ValidatorAddress: crypto.Address(r.Bytes(20)), ValidatorIndex: r.Intn(100), ValidatorSize: r.Range(1, 100),
 			Height: h, Round: round, Timestamp: genTime(r), Type: byte(r.Range(1, 2)), BlockID: genBlockID(r), Signature: genSig(r),
 		}
-		peer := genPeer(r)
+		peer := genPeer(r, fromPeer)
 		o.Msg = cs.VerifWALMsg(&cs.VoteMessage{Vote: v}, peer)
 		o.Sync = peer == ""
 	case "proposal":
 		p := &types.Proposal{Type: byte(r.Intn(3)), Height: h, Round: round, Timestamp: genTime(r), BlockPartsHeader: genPSH(r),
 			POLRound: r.Range(-1, 3), POLBlockID: genBlockID(r), Signature: genSig(r)}
-		peer := genPeer(r)
+		peer := genPeer(r, fromPeer)
 		o.Msg = cs.VerifWALMsg(&cs.ProposalMessage{Proposal: p}, peer)
 		o.Sync = peer == ""
 	case "part":
@@ -158,7 +158,7 @@ func genRecord(r *rng.R, kind string, h uint64, partSize int) op {
 			aunts = append(aunts, r.Bytes([]int{20, 32}[r.Intn(2)]))
 		}
 		part := &types.Part{Index: r.Intn(40), Bytes: genPartBytes(r, partSize), Proof: merkle.SimpleProof{Aunts: aunts}}
-		peer := genPeer(r)
+		peer := genPeer(r, fromPeer)
 		o.Msg = cs.VerifWALMsg(&cs.BlockPartMessage{Height: h, Round: round, Part: part}, peer)
 		o.Sync = peer == ""
 		o.Size = partSize
@@ -238,23 +238,39 @@ func genPlan(r *rng.R, tier string) *plan {
 			kind = "endheight"
 		}
 		size := 0
-		if kind == "part" || (bigLeft > 0 && i >= nrec-bigLeft-1 && kind != "endheight") {
-			switch {
-			case bigLeft > 0 && (r.Chance(0.3) || i >= nrec-bigLeft-1):
-				kind = "part"
-				size = bigParts[r.Intn(len(bigParts))]
-				bigLeft--
-			case r.Chance(0.2):
-				size = r.Range(1, 8)
-			default:
-				size = r.Range(1, partMax)
+		big := false
+		if bigLeft > 0 && kind != "endheight" {
+			if nrec-i <= bigLeft || r.Chance(0.2) {
+				big = true
 			}
 		}
-		o := genRecord(r, kind, h, size)
+		switch {
+		case big:
+			kind = "part"
+			size = bigParts[r.Intn(len(bigParts))]
+			bigLeft--
+		case kind == "part" && r.Chance(0.2):
+			size = r.Range(1, 8)
+		case kind == "part":
+			size = r.Range(1, partMax)
+		}
+		// the node's usual pattern around a large part: an unsynced step event, the part received
+		// from a peer (Write, not WriteSync), and the group's ticker firing some time later
+		fromPeer := big && r.Chance(0.8)
+		if fromPeer && r.Chance(0.7) {
+			p.Ops = append(p.Ops, genRecord(r, "step", h, 0, false))
+		}
+		o := genRecord(r, kind, h, size, fromPeer)
 		if !p.Faithful {
 			o.Sync = r.Chance(0.3)
+			if fromPeer {
+				o.Sync = false
+			}
 		}
 		p.Ops = append(p.Ops, o)
+		if fromPeer && r.Chance(0.6) {
+			p.Ops = append(p.Ops, op{K: "tick", Limit: lim()})
+		}
 		sinceMarker++
 		if kind == "endheight" {
 			sinceMarker = 0
